@@ -56,7 +56,7 @@ func checkC09(w *World, r *Report) {
 	r.rule("C09.callback", "no call that can reach the evaluator (types.Apply, EVAL, a function value) is made while an atom's mutex is held: the RWMutex is not reentrant, an update function that reads or prints the atom, or swaps another atom, would block forever")
 	r.rule("C09.rmw", "swap! is a compare-and-set retry loop: value and version are read in one critical section, the update function is applied outside any lock, and the result is installed in a write-locked section only if the version still equals the one read; a failed comparison retries, and the retry loop polls the context")
 	r.rule("C09.version", "every store to Atom.Val of a shared atom is accompanied, in the same function, by an increment of Atom.version (otherwise a concurrent swap! cannot notice the update and overwrites it)")
-	guardRule(w, r, e, "C09.guard", guardTable[0])
+	guardRule(w, r, e, "C09.guard", w.guardRows()[0])
 	fns := w.pkgFuncs("lib/concurrent")
 	n := pairRule(w, r, e, "C09.pair", fns)
 	r.floor("C09.pair", "lock acquisitions and releases in lib/concurrent", n, 6)
@@ -71,7 +71,7 @@ func checkC09(w *World, r *Report) {
 		if isTestFunc(w, fn) || !libraryPkg(fnPkgPath(fn)) {
 			continue
 		}
-		for _, lc := range e.callsUnderLock(fn, func(k string) bool { return strings.HasSuffix(k, ".Mutex") }) {
+		for _, lc := range e.callsUnderLock(fn, func(k string) bool { return strings.HasSuffix(k, "."+w.roles().atomMutex) }) {
 			nc++
 			bad, why := w.reachesEval(lc.in)
 			construct := "call " + describeCallInstr(e, lc.in) + " under " + lc.held.String()
@@ -98,7 +98,7 @@ func checkC09(w *World, r *Report) {
 				if primitiveConsume(in) {
 					st := in.(*ssa.Store)
 					fa := st.Addr.(*ssa.FieldAddr)
-					if fieldName(fa.X.Type(), fa.Field) == "version" && e.keyOf(fa.X).String() == e.keyOf(a.fa.X).String() {
+					if fieldName(fa.X.Type(), fa.Field) == e.w.roles().atomVersion && e.keyOf(fa.X).String() == e.keyOf(a.fa.X).String() {
 						if b == a.in.Block() || b.Dominates(a.in.Block()) || a.in.Block().Dominates(b) {
 							found = true
 						}
@@ -422,7 +422,7 @@ func isAtomRead(w *World, e *Engine, fn *ssa.Function) bool {
 			continue
 		}
 		nret++
-		for i, want := range []string{"Val", "version"} {
+		for i, want := range []string{"Val", e.w.roles().atomVersion} {
 			ld, ok := resolveRet(ret.Results[i]).(*ssa.UnOp)
 			if !ok {
 				return false
@@ -431,7 +431,7 @@ func isAtomRead(w *World, e *Engine, fn *ssa.Function) bool {
 			if !ok || fa.X != ssa.Value(fn.Params[0]) || fieldName(fa.X.Type(), fa.Field) != want {
 				return false
 			}
-			key := e.keyOf(fa.X).String() + ".Mutex"
+			key := e.keyOf(fa.X).String() + "." + e.w.roles().atomMutex
 			if li.before[ld][key] == 0 {
 				return false
 			}
@@ -450,7 +450,7 @@ func isAtomCAS(w *World, e *Engine, fn *ssa.Function) bool {
 		return false
 	}
 	li := e.locks(fn)
-	key := e.keyOf(fn.Params[0]).String() + ".Mutex"
+	key := e.keyOf(fn.Params[0]).String() + "." + e.w.roles().atomMutex
 	installs := 0
 	for _, b := range fn.Blocks {
 		for _, in := range b.Instrs {
@@ -480,7 +480,7 @@ func isAtomCAS(w *World, e *Engine, fn *ssa.Function) bool {
 				}
 				a, bb := f.A.K.String(), f.B.K.String()
 				pv := e.keyOf(fn.Params[1]).String()
-				if (strings.HasSuffix(a, "->version") && bb == pv) || (strings.HasSuffix(bb, "->version") && a == pv) {
+				if (strings.HasSuffix(a, "->"+e.w.roles().atomVersion) && bb == pv) || (strings.HasSuffix(bb, "->"+e.w.roles().atomVersion) && a == pv) {
 					eq++
 				}
 			}
@@ -524,7 +524,7 @@ func checkC10(w *World, r *Report) {
 	r.rule("C10.cancel-atomic", "in Cancel the test of Done, the stores to Cancelled/Done and the read of the returned value are one critical section; the cancel function is called only on the not-yet-done path")
 	r.rule("C10.ctx", "the body runs under a context.WithCancel child of the creator's context and Cancel calls that cancel function; Deref waits on its caller's context")
 	r.rule("C10.pair", "every lock acquired in the future code is released on every return")
-	guardRule(w, r, e, "C10.shared", guardTable[1])
+	guardRule(w, r, e, "C10.shared", w.guardRows()[1])
 	r.floor("C10.shared", "accesses to Future.Done/Cancelled", r.count("C10.shared"), 6)
 	pairRule(w, r, e, "C10.pair", w.pkgFuncs("lib/concurrent"))
 
@@ -887,7 +887,7 @@ func checkC10(w *World, r *Report) {
 
 	// cancel-atomic
 	li := e.locks(cancel)
-	key := e.keyOf(cancel.Params[0]).String() + ".mu"
+	key := e.keyOf(cancel.Params[0]).String() + "." + w.roles().futureMu
 	nacc, okAll := 0, true
 	unlocks := 0
 	for _, b := range cancel.Blocks {
@@ -974,7 +974,7 @@ func checkC11(w *World, r *Report) {
 	r.rule("C11.pair", "every lock acquired in package env is released on every return")
 	r.rule("C11.order", "while a scope lock is held the only other scope methods called are on the receiver itself or on its outer scope (child-then-parent order), and no call that can reach the evaluator is made")
 	r.rule("C11.globals", "the only package-level variables written from the evaluator closure are the stepping flags, and every such write is control-dependent on Stepper != nil or on a stepping flag")
-	guardRule(w, r, e, "C11.data", guardTable[2])
+	guardRule(w, r, e, "C11.data", w.guardRows()[2])
 	r.floor("C11.data", "accesses to Env.data and calls of lock-required methods", r.count("C11.data"), 10)
 	n := pairRule(w, r, e, "C11.pair", w.pkgFuncs("env"))
 	r.floor("C11.pair", "lock acquisitions/releases in package env", n, 8)
@@ -982,7 +982,7 @@ func checkC11(w *World, r *Report) {
 	// order + no evaluator under scope lock
 	no := 0
 	for _, fn := range w.pkgFuncs("env") {
-		for _, lc := range e.callsUnderLock(fn, func(k string) bool { return strings.HasSuffix(k, ".mu") }) {
+		for _, lc := range e.callsUnderLock(fn, func(k string) bool { return strings.HasSuffix(k, "."+w.roles().envMu) }) {
 			no++
 			c := lc.in.Common()
 			construct := "call " + describeCallInstr(e, lc.in) + " under " + lc.held.String()
@@ -996,8 +996,8 @@ func checkC11(w *World, r *Report) {
 				recvKey := e.keyOf(c.Args[0]).String()
 				okOrder := false
 				for k := range lc.held {
-					base := strings.TrimSuffix(k, ".mu")
-					if recvKey == base+"->outer" {
+					base := strings.TrimSuffix(k, "."+w.roles().envMu)
+					if recvKey == base+"->"+w.roles().envOuter {
 						okOrder = true
 					}
 				}
@@ -1068,7 +1068,7 @@ func checkC11(w *World, r *Report) {
 					continue
 				}
 				fa, ok := st.Addr.(*ssa.FieldAddr)
-				if !ok || fieldName(fa.X.Type(), fa.Field) != "mu" {
+				if !ok || fieldName(fa.X.Type(), fa.Field) != w.roles().envMu {
 					continue
 				}
 				nl++
@@ -1197,7 +1197,6 @@ func resolveRet(v ssa.Value) ssa.Value {
 	}
 	return v
 }
-
 
 // futureBody: the function run by the one goroutine NewFuture starts (nil when it cannot be resolved).
 func futureBody(w *World) *ssa.Function {
@@ -1355,7 +1354,6 @@ func blockReaches(a, b *ssa.BasicBlock, same bool) bool {
 	}
 	return false
 }
-
 
 // doneFlagRule: future-done? reports the Done flag and nothing else, and the flag is only ever set.
 func doneFlagRule(w *World, r *Report, e *Engine, rule string) {
@@ -1549,7 +1547,7 @@ func casExactRule(w *World, r *Report, e *Engine, rule string) {
 			var extra []string
 			for _, a := range knownConds(in.Block()) {
 				d := describeVal(e, a.v, 0)
-				if strings.Contains(d, "version") {
+				if strings.Contains(d, e.w.roles().atomVersion) {
 					continue
 				}
 				extra = append(extra, d)
@@ -1675,7 +1673,6 @@ func futureWritersRule(w *World, r *Report, e *Engine, rule string) {
 	}
 	r.floor(rule, "methods of Future other than Cancel and the body", n, 3)
 }
-
 
 // writesAtomVal: fn (or a function of its package it calls) stores Atom.Val.
 func writesAtomVal(w *World, fn *ssa.Function, seen map[*ssa.Function]bool) bool {
